@@ -150,3 +150,31 @@ func NoEscape(p unsafe.Pointer) unsafe.Pointer {
 	x := uintptr(p)
 	return unsafe.Pointer(x ^ 0)
 }
+
+const (
+	// number of bytes the native / SIMD scanners may load behind the end of a text
+	nativeTextPad = 64
+	// the smallest page size of the supported platforms
+	minPageSize = 4096
+)
+
+// PadText returns b itself when the nativeTextPad bytes behind its end are readable, and a padded copy otherwise.
+//
+// The JSON scanners (native J2T_FSM, sonic ast) scan strings, numbers and literals with wide loads and may read
+// a few bytes past the end of a text that ends inside such a token (a truncated document). Those reads are
+// harmless as long as they hit mapped memory: the spare capacity of the slice, or the rest of the page that holds
+// the last byte of the text. Only a text without spare capacity that ends within nativeTextPad bytes of a page
+// boundary (where the next page may be unmapped) has to be copied.
+func PadText(b []byte) []byte {
+	n := len(b)
+	if n == 0 || cap(b)-n >= nativeTextPad {
+		return b
+	}
+	end := uintptr(unsafe.Pointer(&b[0])) + uintptr(n)
+	if off := end % minPageSize; off != 0 && minPageSize-off >= nativeTextPad {
+		return b
+	}
+	c := make([]byte, n, n+nativeTextPad)
+	copy(c, b)
+	return c
+}
